@@ -595,6 +595,13 @@ std::size_t dataframe::read_xrff(tinyxml2::XMLDocument &doc, const params &p)
       if (p.filter && p.filter(record) == false)
         continue;
 
+      // Skips instances that are too short to contain the output column.
+      if (output_index >= record.size())
+      {
+        vitaWARNING << "Malformed instance skipped (missing output value)";
+        continue;
+      }
+
       std::rotate(record.begin(),
                   std::next(record.begin(), output_index),
                   std::next(record.begin(), output_index + 1));
